@@ -36,7 +36,9 @@ func (e *SeqExplorer) Explore() {
 			ext = e.node(seq)
 		} else {
 			// still need to know whether to extend: execute without counting
-			_, ext, _ = e.Run(seq)
+			if e.C.Journal(func() any { return e.Desc(seq) }) {
+				_, ext, _ = e.Run(seq)
+			}
 		}
 		if !ext || e.MaxDepth < 2 {
 			continue
